@@ -102,7 +102,8 @@ TEMPLATE = r'''
 // resolves, in the document relationship list, to a relationship of the right type whose target is the part of THAT kind
 //@ ensures err == nil && old(noSect(d.Body.Elements)) ==> hdrCanon(%(ns)s.HeaderReferences, %(rels)s) && ftrCanon(%(ns)s.FooterReferences, %(rels)s)
 //@ ensures err == nil ==> forall s *SectionProperties :: {s.%(H)sReferences} allocated(s) && old(isFirstSect(d.Body.Elements, s)) && old(%(h)sNone(s.%(H)sReferences, string(%(kind)s))) && old(%(h)sCanon(s.%(H)sReferences, %(rels)s)) ==> %(h)sCanon(s.%(H)sReferences, %(rels)s)
-//@ ensures err == nil ==> forall s *SectionProperties, k int :: {s.%(H)sReferences[k]} allocated(s) && old(isFirstSect(d.Body.Elements, s)) && old(%(h)sFirstAt(s.%(H)sReferences, k, string(%(kind)s))) && old(%(h)sCanon(s.%(H)sReferences, %(rels)s)) ==> s.%(H)sReferences[k] == old(s.%(H)sReferences[k]) && %(h)sCanon(s.%(H)sReferences, %(rels)s)
+//@ ensures err == nil ==> forall s *SectionProperties, k int :: {s.%(H)sReferences[k]} allocated(s) && old(isFirstSect(d.Body.Elements, s)) && old(%(h)sFirstAt(s.%(H)sReferences, k, string(%(kind)s))) && old(%(h)sCanon(s.%(H)sReferences, %(rels)s)) ==> s.%(H)sReferences[k] == old(s.%(H)sReferences[k])
+//@ ensures err == nil ==> forall s *SectionProperties, k int :: {s.%(H)sReferences[k]} allocated(s) && old(isFirstSect(d.Body.Elements, s)) && old(%(h)sFirstAt(s.%(H)sReferences, k, string(%(kind)s))) && old(%(h)sCanon(s.%(H)sReferences, %(rels)s)) ==> %(h)sCanon(s.%(H)sReferences, %(rels)s)
 //@ ensures err == nil ==> forall s *SectionProperties :: {s.%(O)sReferences} allocated(s) && old(isFirstSect(d.Body.Elements, s)) && old(%(o)sCanon(s.%(O)sReferences, %(rels)s)) ==> %(o)sCanon(s.%(O)sReferences, %(rels)s)
 //@ ensures unchangedExcept("map:string:[]byte", "Relationships.Relationships", "Relationship.*", "ContentTypes.Overrides", "Override.*", "Body.Elements", "cell:any", "SectionProperties.XmlnsR", "SectionProperties.%(H)sReferences", "%(T)s.ID", "cell:*%(T)s")
 '''
